@@ -415,6 +415,21 @@ def rule_r5(repo, run):
     for lit in ('"true"', '"True"', '"false"', '"False"'):
         run.check(R, "main.main_with_args:bool %s" % lit, lit in src,
                   "command-line option value %s is not converted to a boolean as YAML would" % lit, m.loc(f))
+    # numbers like YAML: some options are integers (line lengths, CXX_standard) and are compared with integers
+    do = am.func("LibraryNode.default_options")
+    ints = []
+    for c in ast.walk(do):
+        if isinstance(c, ast.Call) and c.keywords and ((pyflow.call_name(c) or "").endswith("Scope") or pyflow.is_name(c.func, "dict")):
+            ints += [k.arg for k in c.keywords if k.arg and isinstance(k.value, ast.Constant) and type(k.value.value) is int]
+    if not ints:
+        raise AnalysisError("C14.R5: no integer-valued default option found in LibraryNode.default_options")
+    loop = [l for l in ast.walk(f) if isinstance(l, ast.For) and "args.option" in m.seg(l.iter)]
+    conv = [c for l in loop for c in ast.walk(l) if isinstance(c, ast.Call) and pyflow.is_name(c.func, "int")
+            and c.args and pyflow.is_name(c.args[0], "value")]
+    run.check(R, "main.main_with_args:int-options", bool(conv),
+              "options %s are integers in the YAML file, but a value given with --option stays a string: "
+              "`--option F_line_length=100` ends in TypeError ('>' not supported between int and str) where the YAML spelling "
+              "works" % sorted(ints)[:4], m.loc(f))
     # command line merged after the files
     lines = {}
     for node in ast.walk(f):
